@@ -1349,6 +1349,9 @@ func checkStanzaError(c *core.Case, v Val) {
 	// Wrap: the application condition follows the condition and texts, unchanged
 	if len(v.Payload) > 0 {
 		c.Count("app_payloads", 1)
+		if v.BorrowedCond {
+			c.Count("stanza_errors_whose_payload_is_named_like_another_defined_condition", 1)
+		}
 		pay := payloadTokens(v.Payload)
 		var plain, with []xml.Token
 		var e1, e2 error
@@ -1464,6 +1467,20 @@ func checkStreamError(c *core.Case, v Val) {
 		c.Count("decoded_outputs", 1)
 		dc := coreSErr(d)
 		if p.name == "xml.Marshal" {
+			// A destination that has been used before (a variable of a read
+			// loop, a copy of one of the predefined errors) gets the condition
+			// that is on the wire, like a fresh one.
+			used := stream.HostGone
+			if v.Cond == "host-gone" {
+				used = stream.SystemShutdown
+			}
+			var uerr error
+			if !c.Guard("decode(used destination)", func() { uerr = xml.Unmarshal(b, &used) }) && uerr == nil {
+				c.Count("stream_errors_decoded_into_a_used_destination", 1)
+				if used.Err != d.Err {
+					c.Violate("codec:R:stream.Error:used-destination:Err", "the same bytes decode to condition %q in a fresh stream.Error and to %q in one that held another condition before\n%q", d.Err, used.Err, b)
+				}
+			}
 			ref, refTree, haveRef = dc, n, true
 			if !v.Hostile && canonical {
 				if f := diffSErr(dc, orig); f != "" {
@@ -1514,7 +1531,7 @@ func run(c *core.Case) {
 
 // Prop returns the C13 check.
 func Prop() *core.Prop {
-	req := []string{"stanza_error", "stream_error", "roundtrips", "agreements", "wellformed_outputs", "decoded_outputs",
+	req := []string{"stream_errors_decoded_into_a_used_destination", "stanza_errors_whose_payload_is_named_like_another_defined_condition", "stanza_error", "stream_error", "roundtrips", "agreements", "wellformed_outputs", "decoded_outputs",
 		"wrap_checks", "result_checks", "error_reply_checks", "start_inverse_checks", "unmarshal_error_checks",
 		"unmarshal_iq_error_checks", "composite_checks", "app_payloads", "multi_language_texts",
 		"texts_xml_special", "texts_non_ascii", "texts_control_adjacent", "texts_unrepresentable", "empty_fields",
